@@ -107,6 +107,27 @@ def query_module(inst, T):
     a("  });")
     a('  match r { Ok(s) => s, Err(_) => "panic".to_string() }')
     a("}")
+    # ONE parser object for a whole sequence of inputs (separated by \\x1f), each input first
+    # spoilt (a foreign character appended: the parse fails after its shifts) and then as it is
+    a("pub fn run_seq(inputs: &str) -> String {")
+    if glr:
+        a("  String::new()")
+    else:
+        a("  let inputs: &'static str = Box::leak(inputs.to_string().into_boxed_str());")
+        a("  let r = std::panic::catch_unwind(move || {")
+        a("    let parser = GParser::new();")
+        a("    let mut out: Vec<String> = vec![];")
+        a("    for input in inputs.split('\\u{1f}') {")
+        a('      let bad: &\'static str = Box::leak(format!("{} ~", input).into_boxed_str());')
+        a("      let _ = parser.parse(bad);")
+        a("      out.push(match parser.parse(input) {")
+        a('        Ok(r) => format!("ok {:?}", r),')
+        a('        Err(e) => format!("err {}", e.to_pos_str()) });')
+        a("    }")
+        a('    out.join("\\u{1f}")')
+        a("  });")
+        a('  match r { Ok(s) => s, Err(_) => "panic".to_string() }')
+    a("}")
     return "\n".join(lines) + "\n"
 
 
@@ -208,7 +229,10 @@ def build(work, instances, need_run=True, jobs=run.NCPU):
                 f.write('  if !go { if after == "%s" { go = true; } } else {\n' % n)
                 f.write('  println!("@@B %s");\n' % n)
                 f.write('  println!("@@T %s {}", %s::q::table());\n' % (n, n))
-                f.write('  for i in inputs.get("%s").map(|v| v.as_slice()).unwrap_or(&[]) { println!("@@R %s {}", guarded("%s", %s::q::run_one, i.clone()).replace("\\n", " ")); }\n  }\n' % (n, n, n, n))
+                f.write('  for i in inputs.get("%s").map(|v| v.as_slice()).unwrap_or(&[]) { println!("@@R %s {}", guarded("%s", %s::q::run_one, i.clone()).replace("\\n", " ")); }\n' % (n, n, n, n))
+                if inst.get("session"):
+                    f.write('  if let Some(v) = inputs.get("%s") { if !v.is_empty() { println!("@@Q %s {}", guarded("%s", %s::q::run_seq, v.join("\\u{1f}")).replace("\\n", " ")); } }\n' % (n, n, n, n))
+                f.write('  }\n')
             f.write("}\n")
         t0 = time.time()
         cmd = ["cargo", "build" if need_run else "check", "--offline", "--message-format=json", "-j", str(jobs)]
@@ -273,6 +297,9 @@ def build(work, instances, need_run=True, jobs=run.NCPU):
                 elif line.startswith("@@R "):
                     _, name, rest = line.split(" ", 2)
                     out[name]["runs"].append(rest)
+                elif line.startswith("@@Q "):
+                    _, name, rest = (line.split(" ", 2) + [""])[:3]
+                    out[name]["session"] = rest.split("\x1f")
             if r.returncode == 0 or cur is None:
                 break
             # the process died inside instance `cur` (stack overflow / abort in generated
